@@ -613,6 +613,44 @@ func c13cachedHeader(c *Ctx, r *Result) {
 		}
 	}
 	r.Check(mirrored, "C13.6", c.Name(fn)+"#cached-header-follows-disk-patch", c.InstrPos(at), "the address bytes written at layoutBTreeOffset are also copied into the layout message of dw.objectHeader (the copy Resize and the attribute operations write back)")
+	// the message that receives the copy is selected by what it IS: every test of a byte of the message against a constant
+	// (version 3, class chunked) that decides whether the copy is reached is passed on its equality side
+	if mirrored && at != nil {
+		bad := ""
+		for _, b := range fn.Blocks {
+			ifi, isIf := b.Instrs[len(b.Instrs)-1].(*ssa.If)
+			if !isIf {
+				continue
+			}
+			cmp, isC := ifi.Cond.(*ssa.BinOp)
+			if !isC || (cmp.Op != token.EQL && cmp.Op != token.NEQ) {
+				continue
+			}
+			if _, isK := stripConv(cmp.Y).(*ssa.Const); !isK {
+				continue
+			}
+			ld, isLd := isLoad(stripConv(cmp.X))
+			if !isLd {
+				continue
+			}
+			ia, isIA := ld.X.(*ssa.IndexAddr)
+			if !isIA {
+				continue
+			}
+			if k, _ := fieldLoadKey(ia.X); !strings.HasSuffix(k, ".Data") {
+				continue
+			}
+			for e := 0; e < 2; e++ {
+				if edgeDominates(b, b.Succs[e], at.Block()) {
+					onEquality := (cmp.Op == token.EQL && e == 0) || (cmp.Op == token.NEQ && e == 1)
+					if !onEquality {
+						bad = c.InstrPos(cmp)
+					}
+				}
+			}
+		}
+		r.Check(bad == "", "C13.6", c.Name(fn)+"#cached-copy-goes-to-the-chunked-layout-message", c.InstrPos(at), "the message that receives the new index address is selected by equality tests on its version and class bytes"+map[bool]string{true: "", false: " (the test at " + bad + " is passed on its inequality side: the chunked layout message is never the one patched)"}[bad == ""])
+	}
 	// and the patch comes first (the cache is updated only when the disk write succeeded)
 	r.Floor("C13.6", 1)
 }
